@@ -1,6 +1,9 @@
 import InTotoModel.Driver.Proto
 import InTotoModel.Model.Pae
 import InTotoModel.Model.Utf8
+import InTotoModel.Driver.JsonProto
+import InTotoModel.Model.Signed
+import InTotoModel.Model.JsonParse
 /-
   Executable model driver: one operation per input line, one canonical answer per line.
   Unknown or malformed operations answer `bad-op` (never a default).
@@ -27,12 +30,32 @@ def step (line : String) : String :=
     match bytesOfHex b with
     | some b => toString (Utf8.valid b)
     | none => "bad-op"
+  | "canon" :: toks =>
+    match readJV toks with
+    | some (v, []) => showOutStr (Json.canon v)
+    | _ => "bad-op"
+  | "signed" :: toks =>
+    match readJV toks with
+    | some (v, []) => showOutStr (Json.signedText v)
+    | _ => "bad-op"
+  | "refcanon" :: toks =>
+    match readJV toks with
+    | some (v, []) => showOutStr (Json.refCanon v)
+    | _ => "bad-op"
+  | ["parsej", h] =>
+    match strOfHex h with
+    | some t =>
+      match Json.parseJ t with
+      | some v => "ok " ++ showJV v
+      | none => "none"
+    | none => "bad-op"
   | _ => "bad-op"
 
 partial def loop (h : IO.FS.Stream) (out : IO.FS.Stream) : IO Unit := do
   let line ← h.getLine
   if line.isEmpty then return ()
   out.putStrLn (step line)
+  out.flush
   loop h out
 
 def main : IO Unit := do
